@@ -88,7 +88,7 @@ func (b *backend) pathRotateWrite(ctx context.Context, req *logical.Request, d *
 		return nil, err
 	}
 
-	if err := logical.EndTxStorage(ctx, req); err != nil {
+	if err := b.endPolicyTxStorage(ctx, req, name); err != nil {
 		return nil, err
 	}
 
